@@ -219,11 +219,7 @@ func runE2E(d Desc, cw *hlib.CaseWriter, idBase int) {
 			case v.name == "honest" && class != vAccept:
 				rep.Fail("e2e:honest-block-refused", fmt.Sprintf("Process refuses the block the node's own worker assembled (%v): %s", perr, vd.Note), vd)
 			}
-			terms := make([]string, len(items))
-			for i, it := range items {
-				terms[i] = "(" + u.payload(it.tx) + ", 0)"
-			}
-			cw.Add(fmt.Sprintf("CV %d %d %s %s %s %d %d %d", id, oldest, u.payloads(queue), u.payloads(inbound), hlib.CoqList(terms), num, gl, class), vd)
+			cw.Add(fmt.Sprintf("CV %d %d %s %s %s %d %d %d", id, oldest, u.rangesOf(queue), u.rangesOf(inbound), u.itemRanges(items), num, gl, class), vd)
 			rep.TracesValidated++
 			rep.Nontrivial(fmt.Sprintf("e2e/%d/%d/%s", d.Sub, step, v.name))
 			if step == 0 && v.name == "swap" {
